@@ -5,6 +5,8 @@ import (
 	"io"
 	"net"
 	"time"
+
+	"verifh/sx"
 )
 
 // FakeConn is an in-memory net.Conn honouring the documented contracts:
@@ -13,13 +15,25 @@ type FakeConn struct {
 	Writes    [][]byte // one entry per Write call (copied)
 	Closed    int
 	FailWrite bool   // Write returns an error and writes nothing
-	ShortBy   int    // Write reports ShortBy fewer bytes (no error)
+	ShortBy   int    // the next Write accepts ShortBy fewer bytes than offered (no error), once
 	PeerEOF   bool   // Read returns io.EOF (peer closed)
 	ReadData  []byte // stream served by Read
 	Cuts      []int  // segment boundaries for Read (absolute offsets, increasing)
 	Remote    string // remote address (default 10.0.0.2:55555)
-	readPos   int
+	// DeadlineTimeouts: when the code under test has set a read deadline, a Read
+	// at a segment boundary may first fail with a timeout (the next segment
+	// arrives late) - the environment's choice, at most once per boundary.
+	DeadlineTimeouts bool
+	readPos          int
+	deadlineSet      bool
+	timedOutAt       int
 }
+
+type timeoutError struct{}
+
+func (timeoutError) Error() string   { return "fakeconn: i/o timeout" }
+func (timeoutError) Timeout() bool   { return true }
+func (timeoutError) Temporary() bool { return true }
 
 type fakeAddr string
 
@@ -37,10 +51,20 @@ func (c *FakeConn) Write(b []byte) (int, error) {
 	if c.FailWrite {
 		return 0, ErrWrite
 	}
-	cp := make([]byte, len(b))
-	copy(cp, b)
+	n := len(b)
+	if c.ShortBy > 0 {
+		// the connection accepts only part of this one Write (no error), as a
+		// net.Conn may; the accepted bytes are what reaches the peer
+		n -= c.ShortBy
+		if n < 0 {
+			n = 0
+		}
+		c.ShortBy = 0
+	}
+	cp := make([]byte, n)
+	copy(cp, b[:n])
 	c.Writes = append(c.Writes, cp)
-	return len(b) - c.ShortBy, nil
+	return n, nil
 }
 
 func (c *FakeConn) Read(b []byte) (int, error) {
@@ -48,6 +72,16 @@ func (c *FakeConn) Read(b []byte) (int, error) {
 		return 0, ErrClosed
 	}
 	if c.readPos < len(c.ReadData) {
+		if c.DeadlineTimeouts && c.deadlineSet && c.readPos > 0 && c.timedOutAt != c.readPos {
+			for _, cut := range c.Cuts {
+				if cut == c.readPos {
+					c.timedOutAt = c.readPos
+					if sx.Bool("segmentArrivesAfterTheReadDeadline") {
+						return 0, timeoutError{}
+					}
+				}
+			}
+		}
 		end := len(c.ReadData)
 		for _, cut := range c.Cuts {
 			if cut > c.readPos {
@@ -77,8 +111,14 @@ func (c *FakeConn) RemoteAddr() net.Addr {
 	}
 	return fakeAddr("10.0.0.2:55555")
 }
-func (c *FakeConn) SetDeadline(t time.Time) error      { return nil }
-func (c *FakeConn) SetReadDeadline(t time.Time) error  { return nil }
+func (c *FakeConn) SetDeadline(t time.Time) error {
+	c.deadlineSet = !t.IsZero()
+	return nil
+}
+func (c *FakeConn) SetReadDeadline(t time.Time) error {
+	c.deadlineSet = !t.IsZero()
+	return nil
+}
 func (c *FakeConn) SetWriteDeadline(t time.Time) error { return nil }
 
 // TotalWritten is the number of bytes handed to Write.
